@@ -20,6 +20,11 @@ EXTRA = {
     "C07-2": ["C02"], "C05-2": ["C08"],
     "C06-3": ["C05"], "C10-4": ["C06"], "C09-3": ["C20"], "C02-3": ["C09"], "C02-4": ["C09"],
     "C04-4": ["C01"], "C08-3": ["C04"], "C08-4": ["C07"], "C05-3": ["C08"], "C03-4": ["C07"],
+    "C01-5": ["C04"], "C01-6": ["C03", "C05"], "C02-5": ["C20"], "C02-6": ["C20", "C09"], "C03-6": ["C20"],
+    "C04-5": ["C03", "C01"], "C04-6": ["C08"], "C06-6": ["C04", "C08"], "C07-5": ["C08"], "C07-6": ["C02"],
+    "C08-5": ["C01", "C05"], "C08-6": ["C05"], "C10-6": ["C08"],
+    "C05-6": ["C08"], "C11-5": ["C20"], "C13-5": ["C14"], "C13-6": ["C15"], "C14-5": ["C13"], "C14-6": ["C15"],
+    "C15-5": ["C13"], "C15-6": ["C13"], "C17-6": ["C20"], "C19-5": ["C17", "C20"], "C19-6": ["C13"], "C20-5": ["C17"], "C20-6": ["C11"],
     "C13-3": ["C14"], "C13-4": ["C15"], "C15-4": ["C13"], "C14-3": ["C13"], "C19-4": ["C20"], "C20-3": ["C19"],
 }
 
